@@ -212,6 +212,15 @@ func Guard(f func()) {
 	f()
 }
 
+// GuardSeq runs f (a sequential case without goroutines of its own) under the hang watchdog
+// with the strict limit: a call that never returns is a spin or a deadlock, whatever the load.
+func GuardSeq(f func()) {
+	wdOnce.Do(func() { go watchdog() })
+	wdStart.Store(time.Now().UnixNano())
+	defer wdStart.Store(0)
+	f()
+}
+
 // SetOnHang registers a function called by the watchdog before it exits the
 // process (used to save the current case as a replay file).
 func SetOnHang(f func()) { wdOnHang.Store(&f) }
